@@ -377,7 +377,8 @@ Definition plusv : fspec := spec_of Vv true false.
 
 Inductive json :=
 | JNull | JBool (b : bool) | JNum (z : Z) | JRaw (s : string) | JStr (s : string)
-| JArr (l : list json) | JObj (kvs : list (string * json)).
+| JArr (l : list json) | JObj (kvs : list (string * json))
+| JHtml (j : json).   (* text produced by a nested json.Marshal call of a Marshaler: HTML-escaped whatever the outer encoder does *)
 
 (* assignment into a map followed by encoding with sorted keys *)
 Fixpoint ins_sorted {A} (k : string) (x : A) (l : list (string * A)) : list (string * A) :=
@@ -415,11 +416,11 @@ Fixpoint to_json (v : val) : json :=
   | VIface x => to_json x
   | VFields fs _ _ =>
       (* fields.MarshalJSON: map[name] = Value(), last in insertion order wins *)
-      JObj ((fix go (fs : list (fkey * val)) (acc : list (string * json)) : list (string * json) :=
+      JHtml (JObj ((fix go (fs : list (fkey * val)) (acc : list (string * json)) : list (string * json) :=
                match fs with
                | [] => acc
                | (k, x) :: r => go r (ins_sorted (k_name k) (to_json x) acc)
-               end) fs [])
+               end) fs []))
   end.
 
 Fixpoint json_render (html : bool) (j : json) : string :=
@@ -438,6 +439,7 @@ Fixpoint json_render (html : bool) (j : json) : string :=
                           | [] => []
                           | (k, x) :: r => (json_string html k ++ ":" ++ json_render html x)%string :: go r
                           end) kvs) ++ "}")%string
+  | JHtml x => json_render true x
   end.
 
 (* json.Marshal(v) *)
@@ -660,7 +662,8 @@ Definition restore_field (conv : string -> json -> option val) (name : string) (
   | _ => match conv name j with Some v => Typed v | None => Unknown j end
   end.
 
-Definition obj_entries (j : json) : list (string * json) := match j with JObj kvs => kvs | _ => [] end.
+Definition obj_entries (j : json) : list (string * json) :=
+  match j with JObj kvs | JHtml (JObj kvs) => kvs | _ => [] end.
 
 (* the fields of the restored error: (name, slot) for every member of the "fields" object *)
 Definition restore_fields (conv : string -> json -> option val) (fs : fields) (last : Z) : list (string * slot) :=
